@@ -279,6 +279,7 @@ def _run(tape, out, elfi, root):
             r.pending.discard(name)
             out.probes['node_created_after_its_observed_data'] += 1
         meta = False
+        ctor_obs = None
         if cls == 'Constant':
             val = float(tape.int('const_value', 1, 20)) * 0.25
             node = elfi.Constant(val, model=m, name=name)
@@ -300,7 +301,14 @@ def _run(tape, out, elfi, root):
             else:
                 o = mk_op({'Operation': 'op', 'Simulator': 'sim', 'Summary': 'sum',
                            'Discrepancy': 'disc'}[cls])
-                node = getattr(elfi, cls)(o, *args, model=m, name=name)
+                kw = {'name': name, 'model': m}
+                if any(k == 'n' for k, _ in parents) and tape.chance('model_from_parents', 1, 4):
+                    del kw['model']        # the model is taken from the parent nodes
+                if cls in ('Simulator', 'Summary') and name not in r.observed and \
+                        tape.chance('observed_in_constructor', 1, 4):
+                    ctor_obs = np.array([[float(tape.int('obs', 1, 9))]])
+                    kw['observed'] = ctor_obs
+                node = getattr(elfi, cls)(o, *args, **kw)
                 op = o.key
             pos = [(k, p if k == 'n' else sp.dg(p)) for k, p in parents]
         real_name = node.name
@@ -314,7 +322,10 @@ def _run(tape, out, elfi, root):
             out.violate('consistent-dag', 'duplicate-name', name=real_name)
         r.nodes[real_name] = {'cls': cls, 'op': op, 'pos': pos, 'param': cls == 'Prior',
                               'meta': meta}
-        if cls in ('Simulator', 'Summary') and tape.chance('with_observed', 1, 2):
+        if ctor_obs is not None:
+            r.observed[real_name] = sp.dg(ctor_obs)
+            out.probes['observed_given_to_constructor'] += 1
+        elif cls in ('Simulator', 'Summary') and tape.chance('with_observed', 1, 2):
             val = np.array([[float(tape.int('obs', 1, 9))]])
             m.observed[real_name] = val
             r.observed[real_name] = sp.dg(val)
